@@ -4,6 +4,8 @@
 //verif:replace@C03a (*regexp.Regexp).Match = c03Match
 //verif:replace@C03b (*regexp.Regexp).Match = c03Match
 //verif:replace@C07h regexp.Compile = c03Compile
+//verif:replace@C12f regexp.Compile = c03Compile
+//verif:replace@C12f (*regexp.Regexp).Match = c03Match
 //verif:replace@C07h (*regexp.Regexp).Match = c03Match
 
 package fs
@@ -107,7 +109,14 @@ func VerifC03Grep(n, B, A, X int) {
 	for i := range sel {
 		sel[i] = c03M[i] != inv
 	}
-	want := refGrep(sel, B, A, X)
+	// a negative option value switches that option off (it counts as 0), the others stay in force
+	clamp := func(v int) int {
+		if v < 0 {
+			return 0
+		}
+		return v
+	}
+	want := refGrep(sel, clamp(B), clamp(A), clamp(X))
 	c03Check(got, counts, want)
 	verifrt.Reach("checked")
 	if X > 0 && len(want) < n && len(want) > 0 {
